@@ -21,41 +21,54 @@ AXIOMS_ALLOWED = []
 LEVEL = "proof"
 REQUIRED_THEOREMS = ["C10_races_confined", "C10_race_freeb_sound", "C10_no_adjacent_conflict", "C10_race_freeb_iff_race_free",
                      "C10_offenders_realisable", "C10_race_vars_confined", "C10_current_table_race_free", "C10_current_table_discipline",
-                     "C10_current_table_no_data_race", "C10_current_table_no_adjacent_conflict", "C10_reported_offenders_are_the_checked_ones"]
+                     "C10_current_table_no_data_race", "C10_current_table_no_adjacent_conflict", "C10_current_table_covers_the_control_state",
+                     "C10_reported_offenders_are_the_checked_ones"]
 TECHNIQUE = ("Coq proof of a lock-set/atomic discipline over an access table regenerated from the C++ source by a clang-AST translator "
              "+ ThreadSanitizer cross-validation")
-RULE = ("static: one access table regenerated from the sources (every method of the translated classes reachable from the control API "
-        "or from the filtering-thread body); dynamic: directed command lists (one per control command / skip target, KF and SIS, with and "
-        "without exogenous model) plus seeded random command lists of 30-80 commands (run, reset, reboot, step_number, is_running, "
-        "skip(prediction|state|exogenous|correction|all, on|off), teardown, sleeps) against a filter that keeps stepping until teardown; "
-        "non-trivial = the list contains at least one skip command and one of reset/reboot; distinct by (filter, exogenous model, set of command kinds)")
+RULE = ("static: one access table regenerated from EVERY source file of the library (every function body of namespace bfl reachable from the "
+        "control API or from the filtering-thread body); dynamic: directed command lists (one per skip target on KF and bootstrap SIS with and without "
+        "exogenous model; one control+skips list per filter kind: KF, generic UKF, additive UKF, SUKF, bootstrap SIS, GPF with KF / UKF inside, each with "
+        "LTI and WhiteNoiseAcceleration state models, exogenous model attached, logging enabled, ResamplingWithPrior on the particle filters) plus seeded "
+        "random command lists of 30-80 commands over the same configurations; non-trivial = the list contains at least one skip command and one of "
+        "reset/reboot; distinct by (filter kind, state model, inner filter, exogenous model, logging, resampling, set of command kinds)")
 TRUSTED_BASE = ["Coq 8.16.1 kernel (coqc); no axioms (Print Assumptions: closed under the global context)",
-                "the translator props/C10_translate.py and clang 14's JSON AST: that every access of a translated method is listed in the table with a protection it really has",
+                "the translator props/C10_translate.py and clang 14's JSON AST: that every access of a translated body is listed in the table with a protection it really has "
+                "(fail-closed: unknown constructs, unresolved calls into repository code, escaping references are reported as unprotected accesses)",
                 "the definition of a data race used by the theorems: conflicting accesses of different threads, not both atomic, not ordered by happens-before "
                 "(program order, unlock->lock of the same mutex, thread creation, join); the C++ memory model proper is not formalised",
-                "class-level abstraction: all instances of a class share one variable per member; control flow is abstracted (any order and number of the listed accesses)",
-                "accesses made outside the translated classes (user subclasses, measurement models, Logger, Eigen, the standard library) are not in the table",
-                "std::atomic, std::mutex, std::condition_variable and the standard stream objects are taken as internally synchronised",
+                "class-level abstraction: all instances of a class share one variable per member (and one per pointee of a pointer/reference member); control flow is "
+                "abstracted (any order and number of the listed accesses)",
+                "not in the table: constructors/destructors (objects are constructed before boot() and destroyed after wait()), user code (filter subclasses, models "
+                "implementing pure virtuals), Eigen, the standard library",
+                "std::atomic, std::mutex, std::condition_variable and std::cout/cerr/clog are taken as internally synchronised; a bfl class only if ALL its data members are",
                 "cpp/h_C10.cpp, GCC 12 ThreadSanitizer, the parser of its reports in props/C10.py"]
-ASSUMPTIONS = ["one controlling thread (the property statement); objects are constructed before boot() and destroyed after wait()",
-               "user-defined filtering_step/run_condition of a GaussianFilter subclass use prediction(), correction(), predict, correct, freeze_measurements, step_number only (FLT_ASSUMED_ROOTS)",
+ASSUMPTIONS = ["ONE controlling thread (the property statement); pairs of control accesses that would conflict with two controllers are listed separately in the evidence",
+               "the control interface is the command list of the property (run, reset, reboot, teardown, step_number, is_running, skip, plus boot/wait); the Logger "
+               "switches enable_log/disable_log are not in it (what they would race on is reported under outside_the_command_list)",
+               "objects are constructed and configured before boot() and destroyed after wait()",
+               "user-defined filtering_step/run_condition of a GaussianFilter subclass use prediction(), correction(), predict, correct, freeze_measurements, getLikelihood, "
+               "step_number, logger only (FLT_ASSUMED_ROOTS)",
                "the verification hook bfl_verif_hook is not installed (it is null unless a verification harness sets it)"]
 LEVEL_TEXT = ("Proof of the discipline, over a table regenerated from the source: for EVERY access table and EVERY interleaving of its two-thread "
-              "small-step semantics (mutex acquire/release, fork at boot, join at wait) every data race is between a pair of accesses that the boolean "
-              "checker race_freeb reports (C10_races_confined; soundness C10_race_freeb_sound; completeness C10_offenders_realisable). The table of the "
-              "current sources (24 classes; every method reachable from run/reset/reboot/teardown/step_number/is_running/skip/boot/wait and from the "
-              "filtering-thread body) is regenerated by a translator over clang's JSON AST on every run and race_freeb current_table = [] is re-checked "
-              "by the kernel (C10_current_table_race_free), hence no execution of the table has a data race (C10_current_table_no_data_race). A "
-              "ThreadSanitizer build of a two-thread harness (KF GaussianFilter, bootstrap SIS, seeded command lists) searches for concrete racy "
-              "schedules and cross-validates the table: every variable it reports must be flagged by the checker.")
+              "small-step semantics (ONE controlling thread and the filtering thread; mutex acquire/release, fork at boot, join at wait) every data race is "
+              "between a pair of accesses that the boolean checker race_freeb reports (C10_races_confined; soundness C10_race_freeb_sound; completeness "
+              "C10_offenders_realisable). The table of the current sources is regenerated on every run by a translator over clang's JSON AST of every source "
+              "file of the library (every function body of namespace bfl reachable from run/reset/reboot/teardown/step_number/is_running/skip/boot/wait and "
+              "from the filtering-thread body); race_freeb current_table = [] is re-checked by the kernel (C10_current_table_race_free), hence no execution "
+              "of the table has a data race (C10_current_table_no_data_race), and the table is pinned (C10_current_table_covers_the_control_state: the control "
+              "flags, mutex, condition variable, six skip flags and SkipFlag::value_ are seen as shared; at least 20 control and 100 filtering-thread bodies). "
+              "A ThreadSanitizer build of a two-thread harness (KF, generic/additive UKF, SUKF, bootstrap SIS, GPF; LTI and WhiteNoiseAcceleration models; "
+              "exogenous model; logging; prior-mixing resampling; seeded command lists) searches for concrete racy schedules and cross-validates the table: "
+              "every variable it reports must be flagged by the checker. A planted race in a scratch copy must be detected by both parts on every run.")
 LEVEL_NOTE = ("What this level is: a proof of the lock-set/atomic/fork-join discipline over an access table regenerated from the source, not a proof about "
               "the C++ memory model. 'Data race' is DEFINED in the Coq model (conflicting accesses of different threads, not both atomic, not ordered by "
-              "program order / unlock->lock / thread creation / join). Trusted or partial: the translator (Python + clang 14 JSON AST; fail-closed: anything it "
-              "does not understand becomes an unprotected write to a variable that aliases everything) and its claim that the table lists every access with a "
-              "protection it really has; std::atomic, std::mutex, std::condition_variable and the standard streams as internally synchronised (a bfl class "
-              "such as SkipFlag counts only if ALL its data members are of such types - decided from the AST, not by name); class-level abstraction of "
-              "variables; accesses outside the 24 translated classes (user filter subclasses, measurement models, Logger, Eigen, libstdc++); one controlling "
-              "thread; the dynamic part is a sampled ThreadSanitizer search (34 command lists quick / 420 thorough).")
+              "program order / unlock->lock / thread creation / join). Trusted or partial: the translator (Python + clang 14 JSON AST; fail-closed: unknown "
+              "constructs, calls into repository code it cannot resolve to a translated body, references/pointers that outlive the expression become "
+              "unprotected accesses, the first two to a variable that aliases everything) and its claim that the table lists every access with a protection "
+              "it really has; std::atomic, std::mutex, std::condition_variable, std::cout/cerr/clog as internally synchronised (a bfl class such as SkipFlag "
+              "only if ALL its data members are - decided from the AST, not by name); class-level abstraction of variables; constructors/destructors, user "
+              "code, Eigen and libstdc++ are not in the table; ONE controlling thread; the control interface is the property's command list (the Logger "
+              "switches are outside it and reported separately); the dynamic part is a sampled ThreadSanitizer search (quick: 44 command lists; thorough: 430).")
 
 COUNTS = {"quick": 14, "thorough": 400}
 SKIPS = ["prediction", "state", "exogenous", "correction", "all"]
@@ -71,13 +84,22 @@ if not os.path.exists(TABLE_V):
 
 # ----------------------------------------------------------------------------- cases
 
-def case(cid, kind, exo, cmds, tag):
-    c = caseio.Case(cid, kind, {"exo": int(exo), "cap": 200000, "np": 12, "tag": tag})
+CONFIGS = [  # (kind, model, inner): every translated prediction / correction / state-model class is instantiated by one of them
+    ("kf", "lti", "kf"), ("kf", "wna", "kf"), ("ukf", "lti", "kf"), ("ukfa", "lti", "kf"), ("ukfa", "wna", "kf"), ("sukf", "lti", "kf"),
+    ("sukf", "wna", "kf"), ("sis", "lti", "kf"), ("sis", "wna", "kf"), ("gpf", "lti", "kf"), ("gpf", "lti", "ukf"), ("gpf", "wna", "kf")]
+
+
+def case(cid, kind, exo, cmds, tag, model="lti", inner="kf", log=0, rwp=0):
+    c = caseio.Case(cid, kind, {"model": model, "exo": int(exo), "log": int(log), "rwp": int(rwp), "inner": inner,
+                                "cap": 200000, "np": 12, "tag": tag})
     c.word("cmds", cmds)
     return c
 
 
 def directed():
+    """One list per skip target on the KF and the bootstrap SIS with AND without an exogenous model (the path on which a
+    plain cache of the exogenous skip state was caught), one control list per filter kind / state model (logging on,
+    prior-mixing resampling on the particle filters), one all-skips list per kind."""
     out = []
     k = 0
     for kind in ("kf", "sis"):
@@ -88,18 +110,21 @@ def directed():
                     cmds += ["skip:%s:1" % what, "sleep:4000", "step", "skip:%s:0" % what, "sleep:4000", "isrun"]
                 cmds += ["teardown", "wait"]
                 out.append(case("d%d" % k, kind, exo, cmds, "skip-" + what)); k += 1
+    for (kind, model, inner) in CONFIGS:
         cmds = ["run", "sleep:15000"]
-        for rep in range(4):
+        for rep in range(3):
             cmds += ["step", "isrun", "reset", "sleep:3000", "step", "reboot", "sleep:2000", "isrun", "run", "sleep:4000"]
+        for what in SKIPS:
+            cmds += ["skip:%s:1" % what, "sleep:2500", "skip:%s:0" % what, "sleep:1500"]
         cmds += ["teardown", "isrun", "step", "wait"]
-        out.append(case("d%d" % k, kind, 1, cmds, "control")); k += 1
+        out.append(case("d%d" % k, kind, 1, cmds, "control+skips", model=model, inner=inner, log=1, rwp=1 if kind in ("sis", "gpf") else 0)); k += 1
     return out
 
 
 def generate(rng, tier):
     cases = directed()
     for i in range(COUNTS[tier]):
-        kind = rng.choice(["kf", "sis"])
+        kind, model, inner = rng.choice(CONFIGS)
         exo = rng.random() < 0.6
         n = rng.randint(30, 80)
         cmds = ["run", "sleep:%d" % rng.randint(2000, 15000)]
@@ -125,7 +150,8 @@ def generate(rng, tier):
             else:
                 cmds.append("sleep:%d" % rng.choice([50, 200, 1000, 3000, 6000, 12000]))
         cmds += ["run", "sleep:%d" % rng.randint(1000, 8000), "step", "teardown", "wait"]
-        cases.append(case("r%d" % i, kind, exo, cmds, "random"))
+        cases.append(case("r%d" % i, kind, exo, cmds, "random", model=model, inner=inner, log=int(rng.random() < 0.3),
+                          rwp=int(kind in ("sis", "gpf") and rng.random() < 0.5)))
     return cases
 
 
@@ -140,7 +166,7 @@ def kinds_of(c):
 def nontrivial(c):
     ks = kinds_of(c)
     if any(k.startswith("skip:") for k in ks) and (("reset" in ks) or ("reboot" in ks)):
-        return (c.kind, c.meta.get("exo"), tuple(sorted(ks)))
+        return (c.kind, c.meta.get("model"), c.meta.get("inner"), c.meta.get("exo"), c.meta.get("log"), c.meta.get("rwp"), tuple(sorted(ks)))
     return None
 
 
@@ -342,6 +368,20 @@ def main(ctx, args):
             ctx.extra.setdefault("steps_total", 0)
             ctx.extra["steps_total"] += int(recs[c.id].get("max_step") or 0)
 
+    # ---- self-test (static part always; dynamic part in the thorough tier: it rebuilds the library from the scratch copy)
+    st_v, st_summary = ([], {"skipped": "replay"}) if args.replay else selftest(ctx, ctx.tier == "thorough")
+    for sig, detail in st_v:
+        dyn.append((sig, detail, None))
+    ctx.log("self-test (planted race): %s" % st_summary)
+    # ---- the logging switches inherited from Logger: not in the property's command list; analysed and reported, not violations
+    try:
+        ext = T.translate(extra_ctl_roots=T.EXTENDED_CTL_ROOTS)
+        ext_racy = [v for v in ext["racy_vars"] if v not in info["racy_vars"]]
+        ext_pairs = ["%s %s %s [%s] %s  vs  %s %s %s [%s] %s" % (o["ctl_method"], o["ctl"][1], o["ctl"][0], o["ctl"][2], o["ctl"][3],
+                                                                  o["flt_method"], o["flt"][1], o["flt"][0], o["flt"][2], o["flt"][3]) for o in ext["offenders"]][:12]
+    except Exception as e:
+        ext_racy, ext_pairs = ["analysis failed: %r" % (e,)], []
+
     # ---- violations: unexpected ones first (the runner prints at most five)
     dyn_sigs = {}
     for sig, detail, c in dyn:
@@ -368,10 +408,85 @@ def main(ctx, args):
         "offending_pairs": len(info["offenders"]),
         "translator_problems": info["problems"], "translator_notes": info["notes"][:40],
         "tsan": {"command_lists": len(cases), "reports": n_reports, "by_signature": tsan_by_sig, "unexplained": unexplained},
-        "proposed_known_findings": sorted(prop),
+        "selftest_planted_race": st_summary,
+        "ctl_ctl_conflicts_if_two_controllers": {"variables": sorted(set(c["var"] for c in info["ctl_ctl"])), "pairs": info["ctl_ctl"][:20],
+                                                 "note": "outside the property (one controlling thread); listed, not violations"},
+        "outside_the_command_list": {"roots": ["%s::%s" % r for r in T.EXTENDED_CTL_ROOTS], "would_race_on": ext_racy, "pairs": ext_pairs,
+                                     "note": "enable_log/disable_log are not among the commands the property names; if a controller called them "
+                                             "while the filter runs these members would race (reported for information)"},
+        "translated_files": info["translated_files"], "uncovered_virtuals": info["uncovered_virtuals"],
         "explanation": "static: access table regenerated from the sources and checked in Coq; dynamic: ThreadSanitizer over seeded command lists",
     })
     return runner.finish(ctx)
+
+
+# ----------------------------------------------------------------------------- self-test: a planted race must be seen by BOTH parts
+
+# Planted by pattern (robust against rewrites of the bodies): a plain counter incremented at the start of reset() and read at the start
+# of step_number(), which the filtering thread calls in every run_condition().  (The static discipline does not count the
+# release/acquire ordering of the atomic flags; the read in every step makes the dynamic race independent of it too.)
+PLANT = [("include/BayesFilters/FilteringAlgorithm.h", r"\n\};\s*\n\s*#endif", "\n    unsigned int c10_planted_ = 0;\n};\n\n#endif"),
+         ("src/FilteringAlgorithm.cpp", r"(void\s+FilteringAlgorithm::reset\(\)\s*\{)", r"\1\n    ++c10_planted_;"),
+         ("src/FilteringAlgorithm.cpp", r"(unsigned int\s+FilteringAlgorithm::step_number\(\)\s*\{)", r"\1\n    if (c10_planted_ > 1000000u) return 0;")]
+PLANTED_VAR = "FilteringAlgorithm::c10_planted_"
+
+
+class scratch_repo:
+    """A copy of the library sources with the planted race; vlib.build is pointed at it for the duration."""
+
+    def __init__(self, ctx):
+        self.root = os.path.join(ctx.work, "selftest")
+
+    def __enter__(self):
+        import shutil
+        dst = os.path.join(self.root, "src", "BayesFilters")
+        shutil.rmtree(self.root, ignore_errors=True)
+        os.makedirs(os.path.dirname(dst))
+        shutil.copytree(build.SRC, dst, ignore=shutil.ignore_patterns("_build*", ".git"))
+        for rel, old, new in PLANT:
+            fp = os.path.join(dst, rel)
+            txt = open(fp).read()
+            new_txt, n = re.subn(old, new, txt, count=1)
+            if n != 1:
+                raise RuntimeError("cannot plant the self-test race: anchor %r not found in %s" % (old, rel))
+            with open(fp, "w") as f:
+                f.write(new_txt)
+        self.saved = (build.REPO, build.SRC, list(build.BASE_FLAGS))
+        build.REPO, build.SRC = self.root, dst
+        build.BASE_FLAGS[:] = [("-I" + os.path.join(dst, "include")) if x == "-I" + os.path.join(self.saved[1], "include") else x for x in build.BASE_FLAGS]
+        return self
+
+    def __exit__(self, *a):
+        build.REPO, build.SRC = self.saved[0], self.saved[1]
+        build.BASE_FLAGS[:] = self.saved[2]
+
+
+def selftest(ctx, dynamic):
+    """-> ([(signature, detail)], summary dict)"""
+    out, summ = [], {"static": None, "dynamic": None}
+    try:
+        with scratch_repo(ctx):
+            info = T.translate()
+            summ["static"] = PLANTED_VAR in info["racy_vars"]
+            summ["static_racy_vars"] = info["racy_vars"]
+            if not summ["static"]:
+                out.append(("C10:selftest:static-part-missed-a-planted-race", "a plain counter written by reset() and read by the filtering thread was planted "
+                            "in a scratch copy; the translator + checker report %s" % info["racy_vars"]))
+            if dynamic:
+                exe = build.build_harness(HARNESS, "tsan")
+                cmds = ["run", "sleep:15000"] + ["reset", "sleep:2500"] * 8 + ["teardown", "wait"]
+                sigs = set()
+                for kind in ("kf", "sis"):
+                    rc, so, se = run_case(exe, case("selftest-" + kind, kind, 1, cmds, "selftest"), 120)
+                    for rep in parse_tsan(se):
+                        sigs.add(classify_report(rep, info)[0])
+                summ["dynamic"] = ("C10:race:" + PLANTED_VAR) in sigs
+                summ["dynamic_signatures"] = sorted(sigs)
+                if not summ["dynamic"]:
+                    out.append(("C10:selftest:dynamic-part-missed-a-planted-race", "ThreadSanitizer harness on the scratch copy reported %s" % sorted(sigs)))
+    except (RuntimeError, build.BuildError) as e:
+        out.append(("C10:selftest:could-not-run", "%s %s" % (e, getattr(e, "log", "")[-400:])))
+    return out, summ
 
 
 def pre_setup():
